@@ -1,1 +1,50 @@
 //! Verification facade: `value` (feature `verif`).
+//!
+//! Thin wrappers over the crate-private parts of the type system: the `VarInt` codec
+//! (`types/varint.rs`) and, further down, key comparison as the B+tree does it
+//! (`tree/cell_ops.rs`). Add-only; nothing here changes behaviour.
+
+use crate::types::{SerializationResult, VarInt, varint::MAX_VARINT_LEN};
+
+/// `VarInt::encode` into a fresh vector.
+pub fn varint_encode(value: i64) -> Vec<u8> {
+    let mut buffer = [0u8; MAX_VARINT_LEN];
+    VarInt::encode(value, &mut buffer).to_vec()
+}
+
+/// `VarInt::from_encoded_bytes` followed by `value()` / `size()`: (decoded value, bytes consumed).
+pub fn varint_decode(bytes: &[u8]) -> SerializationResult<(i64, usize)> {
+    let (v, used) = VarInt::from_encoded_bytes(bytes)?;
+    debug_assert_eq!(v.size(), used);
+    Ok((v.value(), used))
+}
+
+/// `VarInt::encoded_size`.
+pub fn varint_encoded_size(value: i64) -> usize {
+    VarInt::encoded_size(value)
+}
+
+/// `VarInt::read_buf` over an in-memory reader: the raw prefix bytes that were consumed.
+pub fn varint_read_buf(bytes: &[u8]) -> SerializationResult<Vec<u8>> {
+    let mut cur = std::io::Cursor::new(bytes);
+    VarInt::read_buf(&mut cur).map(|b| b.into_vec())
+}
+
+pub fn zigzag_encode(value: i64) -> u64 {
+    VarInt::encode_zigzag(value)
+}
+
+pub fn zigzag_decode(value: u64) -> i64 {
+    VarInt::decode_zigzag(value)
+}
+
+/// Order of two encoded varints as `Ord for VarInt` defines it.
+pub fn varint_cmp(a: &[u8], b: &[u8]) -> SerializationResult<std::cmp::Ordering> {
+    let (x, _) = VarInt::from_encoded_bytes(a)?;
+    let (y, _) = VarInt::from_encoded_bytes(b)?;
+    Ok(x.cmp(&y))
+}
+
+pub const fn max_varint_len() -> usize {
+    MAX_VARINT_LEN
+}
